@@ -803,3 +803,26 @@ func SpillSources(v ssa.Value) []ssa.Value {
 	}
 	return []ssa.Value{v}
 }
+
+// Unwrap resolves synthetic wrappers (bound-method closures, thunks) to the function they call.
+func Unwrap(f *ssa.Function) *ssa.Function {
+	for i := 0; i < 3 && f != nil && f.Synthetic != "" && f.Blocks != nil; i++ {
+		var callee *ssa.Function
+		n := 0
+		for _, b := range f.Blocks {
+			for _, in := range b.Instrs {
+				if ci, ok := in.(ssa.CallInstruction); ok {
+					if g := StaticCallee(ci); g != nil {
+						callee = g
+						n++
+					}
+				}
+			}
+		}
+		if n != 1 {
+			return f
+		}
+		f = callee
+	}
+	return f
+}
